@@ -240,7 +240,12 @@ impl Scenario for S9 {
                     }
                 }
                 3 => {
-                    let k = case.b;
+                    // "every k >= 1": also far more places than there will ever be elements
+                    let k = match case.p_milli {
+                        1 => usize::MAX,
+                        10 => 1usize << 62,
+                        _ => case.b,
+                    };
                     let mut x = CMSHeap::<u64>::new(k, CountMinSketch::with_params(case.a, 2));
                     let mut y = CMSHeap::<u64>::new(k, CountMinSketch::with_params(case.a, 2));
                     for &key in &case.keys {
